@@ -56,6 +56,9 @@ def run(ctx) -> None:
     for org in (0x008000, 0x00FFFA):
         for t in ("caf\u00e9 au lait", "\u00fcber", "Pok\u00e9mon \u4e2d", "\u00e9"):
             progs.append(ascii_case(t, org))
+        # a backslash followed by a letter is two characters of text (only \' is special to the lexer)
+        for t in ("C:\\new\\names.txt", "a\\nb", "tab\\t0"):
+            progs.append(ascii_case(t, org))
     # seeded larger programs rich in data directives
     n = 200 if ctx.quick else 3000
     progs += [apr.gen_program(ctx.seed * 104729 + k, size=12, macros=False) for k in range(n)]
